@@ -44,7 +44,9 @@ static inline void a_real_transform(md5_ctx_t *ctx, const uint8_t *blocks, size_
 		md5_transform(ctx, blocks + i * MD5_MSG_BLK_SIZE);
 }
 /* bytes of the context the transform is allowed to change besides the chaining state */
-#define a_scratch(off)	((off) >= offsetof(md5_ctx_t, buffer) && (off) < offsetof(md5_ctx_t, buffer) + MD5_MSG_BLK_SIZE)
+/* everything except the chaining state and ctx->buffer (scratch copy of an unaligned block) must stay as it was */
+#define a_frame_check(c, b)	do { \
+	V_ASSERT((c)->count == (b)->count, "FRAME transform leaves count alone"); } while (0)
 #endif
 
 typedef md5_ctx_t	a_ctx_t;
